@@ -1360,7 +1360,7 @@ func init() {
 	core.Register(&core.Prop{
 		ID:    "C19",
 		Level: "model_checking",
-		Rule: "bounded-exhaustive semantic mutations through the reference writers (every mutated packet / volume is re-checksummed): PAR2: main packet slice size and count at boundary values (with re-sealed and with stale set id), duplicate / unsorted / missing / unknown ids, removal and duplication of each packet type, four non-canonical packet orders, every file description length at boundary values (id recomputed), wrong hashes and ids, checksum lists longer / shorter / empty / huge, recovery exponents {1,4,5,100,65534,65535,65536,2^31,2^32-1}, recovery payloads of size {0,4,8,12,64}, duplicate exponent with different data, and every packet type's length field at {0,4,60,63,64,65,68,real-4,real+4,2^31,2^63-4,2^63,2^64-4}; PAR1: every header field and every entry field at boundary values, entry counts {253..257, 300} (extra entries saved / not saved) around the 256-shard limit, missing / duplicated entries, truncated data, odd name bytes; plus, on real directories, a valid set with directory entries that are not regular files under names the decoders look for (dangling symlink / directory / symlink loop / symlink to the index / empty file as a recovery file or look-alike, dangling symlink / directory as a data file), singly and in all ordered pairs. " +
+		Rule: "(later rounds added: recovery packets with an empty body; main packets whose non-recovery id sorts first and main packets that keep the set id while splitting / extending / shortening the id lists; the staged Decoder API in both load orders with refused calls repeated; clauses: a clean verdict is about the declared recovery set, and VerifyAllData cannot get better when nothing was written) bounded-exhaustive semantic mutations through the reference writers (every mutated packet / volume is re-checksummed): PAR2: main packet slice size and count at boundary values (with re-sealed and with stale set id), duplicate / unsorted / missing / unknown ids, removal and duplication of each packet type, four non-canonical packet orders, every file description length at boundary values (id recomputed), wrong hashes and ids, checksum lists longer / shorter / empty / huge, recovery exponents {1,4,5,100,65534,65535,65536,2^31,2^32-1}, recovery payloads of size {0,4,8,12,64}, duplicate exponent with different data, and every packet type's length field at {0,4,60,63,64,65,68,real-4,real+4,2^31,2^63-4,2^63,2^64-4}; PAR1: every header field and every entry field at boundary values, entry counts {253..257, 300} (extra entries saved / not saved) around the 256-shard limit, missing / duplicated entries, truncated data, odd name bytes; plus, on real directories, a valid set with directory entries that are not regular files under names the decoders look for (dangling symlink / directory / symlink loop / symlink to the index / empty file as a recovery file or look-alike, dangling symlink / directory as a data file), singly and in all ordered pairs. " +
 			"Each mutation applied to index+volumes / index only / volumes only / the second volume file only x data {intact, first file missing, a slice overwritten}; all single mutations in every placement and data state, and ALL pairs (quick: 2 placements, rotating data state; thorough: 4 placements x 3 data states); real Verify and Repair. " +
 			"Oracle: no panic / crash / hang; TotalAlloc delta <= 64 x (bytes present + declared slice size x 6) + 256 MiB; usable recovery blocks <= recovery packets whose payload has the declared slice size; usable data <= declared checksum entries matching bytes actually present; every write matches the archive's own MD5 and length for that path. non-trivial = every case",
 		Assumptions: []string{"slice sizes >= 2^26 are capped in the allocation bound; 2^31-class slice sizes (seconds of legitimate proportional allocation) are not executed", "TotalAlloc is attributed per execution because workers are single-threaded"},
